@@ -44,9 +44,21 @@ enum Sys {
     Stmt(String),
 }
 
+/// While a "bulk" unit (hundreds of statements) runs, only syscalls and unit boundaries are
+/// events; page mutations and statement ends are not (they would be thousands of near-identical
+/// images).  The interesting crash points of such a unit are the log writes and syncs.
+static COARSE: AtomicBool = AtomicBool::new(false);
+
 fn hook(ev: Sys) {
     if !ACTIVE.load(Ordering::Relaxed) {
         return;
+    }
+    if COARSE.load(Ordering::Relaxed) {
+        match &ev {
+            Sys::PageMut(..) => return,
+            Sys::Stmt(s) if s.starts_with("stmt-end") => return,
+            _ => {}
+        }
     }
     let re = IN_HOOK.with(|h| h.replace(true));
     if re {
@@ -414,6 +426,31 @@ fn workloads(property: &str, quick: bool) -> Vec<Workload> {
         ],
         tables: vec![("t", vec![1, 2, 3, 4], vec![])],
     });
+    // W10: a transaction that dirties more pages than COMMIT_BATCH_SIZE (16), so COMMIT takes the
+    // chunked log path, and that also rewrites a page whose older image is already in the log
+    // (a frame that is acknowledged but not durable lets replay put the older image back).
+    {
+        let mut s = pragmas();
+        s.push("CREATE TABLE big (id INT PRIMARY KEY, payload TEXT)".into());
+        s.push("CREATE TABLE small (id INT PRIMARY KEY, note TEXT)".into());
+        let payload = "p".repeat(880);
+        let mut stmts: Vec<String> = vec!["BEGIN".into()];
+        for k in 1..=420i64 {
+            stmts.push(format!("INSERT INTO big VALUES ({k}, '{payload}')"));
+        }
+        stmts.push("INSERT INTO small VALUES (2, 'in-txn')".into());
+        stmts.push("COMMIT".into());
+        w.push(Workload {
+            name: "w10-chunked-commit",
+            setup: s,
+            units: vec![
+                u1("insert", "INSERT INTO small VALUES (1, 'autocommit')", vec![("small", Some(1))]),
+                Unit { stmts, kind: "txn-bulk", touches: vec![("big", None), ("small", Some(2))] },
+                u1("insert", "INSERT INTO small VALUES (3, 'after')", vec![("small", Some(3))]),
+            ],
+            tables: vec![("small", vec![1, 2, 3], vec![]), ("big", vec![1, 210, 420], vec![])],
+        });
+    }
     // W4: checkpoints between statements
     w.push(Workload {
         name: "w4-checkpoint",
@@ -623,6 +660,7 @@ fn record(wl: &Workload, scratch: &Path) -> Recording {
             g.as_mut().unwrap().in_flight = Some(i);
         }
         hook(Sys::Stmt(format!("unit-begin {i}")));
+        COARSE.store(u.kind == "txn-bulk", Ordering::SeqCst);
         for s in &u.stmts {
             let r = vcore::catch(|| db.execute(s).map(|_| ()).map_err(|e| format!("{e:#}")));
             match r {
@@ -634,6 +672,7 @@ fn record(wl: &Workload, scratch: &Path) -> Recording {
             }
             hook(Sys::Stmt(format!("stmt-end {i}")));
         }
+        COARSE.store(false, Ordering::SeqCst);
         if u.kind != "txn-never-committed" {
             let mut g = RECORDER.lock().unwrap();
             let r = g.as_mut().unwrap();
